@@ -73,11 +73,16 @@ func outcome(rq *reqmgr.Req) string {
 	return out
 }
 
+// stored lists the blocks of the default store as digits and those of the
+// alternate store (if any) as letters.
 func stored(e *reqmgr.Env, n int) string {
 	s := ""
 	for i := 0; i < n; i++ {
 		if i < len(e.Store.Has) && e.Store.Has[i] {
-			s += fmt.Sprintf("%d,", i)
+			s += string(rune('0' + i))
+		}
+		if e.AltStore != nil && i < len(e.AltStore.Has) && e.AltStore.Has[i] {
+			s += string(rune('a' + i))
 		}
 	}
 	return s
@@ -120,13 +125,22 @@ func VerifE2E_Concurrent() {
 	// optionally the second request runs in its own deduplication scope and
 	// tells the responder not to send one of the non-root blocks
 	var exts1 []graphsync.ExtensionData
+	var altLocal []bool
 	if verifrt.Param("SCOPES", 1) == 1 && verifrt.Choose("second-request-own-scope", 2) == 1 {
 		nd, _ := dedupkey.EncodeDedupKey("scope-1")
 		exts1 = append(exts1, graphsync.ExtensionData{Name: graphsync.ExtensionDeDupByKey, Data: nd})
 		set := cid.NewSet()
 		// ... one it already holds (the purpose of do-not-send-cids)
 		k := 2 + verifrt.Choose("do-not-send", n-2)
-		local[k] = true
+		if verifrt.Param("ALTSTORE", 0) == 1 && verifrt.Choose("second-request-own-store", 2) == 1 {
+			// ... in a store of its own (persistence option), which is what
+			// the dedup key is for; the default store may or may not hold it
+			altLocal = make([]bool, n)
+			altLocal[k] = true
+			verifrt.Cover("own-store")
+		} else {
+			local[k] = true
+		}
 		set.Add(kit.Cid(k))
 		exts1 = append(exts1, graphsync.ExtensionData{Name: graphsync.ExtensionDoNotSendCIDs, Data: cidset.EncodeCidSet(set)})
 		verifrt.Cover("own-scope")
@@ -142,6 +156,9 @@ func VerifE2E_Concurrent() {
 	aloneStore := ""
 	for r := 0; r < 2; r++ {
 		w := NewWorld(dag, local, remote, workers, workers)
+		if altLocal != nil {
+			w.Req.AltStore = kit.NewStore(dag, append([]bool(nil), altLocal...))
+		}
 		rq := w.Req.StartAt(responderID, r, r, extsOf(r)...)
 		kit.Drain()
 		alone[r] = outcome(rq)
@@ -149,6 +166,9 @@ func VerifE2E_Concurrent() {
 	}
 	// together: the second request starts immediately or after the system settled
 	w := NewWorld(dag, local, remote, workers, workers)
+	if altLocal != nil {
+		w.Req.AltStore = kit.NewStore(dag, append([]bool(nil), altLocal...))
+	}
 	// relative speed of the two traversals: optionally the first store write
 	// (or the first store read) of one chosen block is slow, i.e. the goroutine
 	// doing it is descheduled until every other goroutine has run as far as it
@@ -212,8 +232,11 @@ func VerifE2E_Concurrent() {
 		union[aloneStore[i]] = true
 	}
 	tog := stored(w.Req, n)
-	for i := 0; i < n; i++ {
+	for i := 0; i < 2*n; i++ {
 		c := byte('0' + i)
+		if i >= n {
+			c = byte('a' + i - n)
+		}
 		has := false
 		for j := 0; j < len(tog); j++ {
 			if tog[j] == c {
